@@ -58,6 +58,7 @@ type Exec struct {
 	topParams map[string]Val
 	usedUnknown map[string]bool
 	usedContracts map[string]bool
+	aborted bool
 	prop string // property being decided: only clauses tagged with it (or untagged) are active
 }
 
@@ -302,6 +303,9 @@ func (ex *Exec) havocResults(st *State, sig *types.Signature) []Val {
 func loopKey(fr *Frame, n int) string { return fmt.Sprintf("%d/%d", fr.id, n) }
 
 func (ex *Exec) runBlock(st *State, fr *Frame, b *ssa.BasicBlock, prev *ssa.BasicBlock, k Kont) {
+	if ex.aborted {
+		return
+	}
 	if ex.npaths > ex.maxPaths {
 		if ex.npaths == ex.maxPaths+1 {
 			ex.errors = append(ex.errors, fmt.Sprintf("%s: path budget %d exceeded (needs abstraction)", funcKey(ex.top), ex.maxPaths))
@@ -369,8 +373,27 @@ func (ex *Exec) runBlock(st *State, fr *Frame, b *ssa.BasicBlock, prev *ssa.Basi
 			}
 			st.inLoop[key] = true
 		} else {
-			fr.visits[b]++
-			// unrolled / unannotated loop: bounded by the step budget
+			// unrolled / unannotated loop: bounded number of visits per path
+			key := "visits:" + loopKey(fr, n)
+			st.callN[key]++
+			limit := 4096
+			if spec == nil || !spec.Unroll {
+				limit = 24
+			}
+			if st.callN[key] > limit {
+				msg := fmt.Sprintf("%s: loop %d of %s is neither annotated with an invariant nor unrollable (visited %d times on one path)", funcKey(ex.top), n, shortFn(fr.fn), limit)
+				dup := false
+				for _, e := range ex.errors {
+					if e == msg {
+						dup = true
+					}
+				}
+				if !dup {
+					ex.errors = append(ex.errors, msg)
+				}
+				ex.aborted = true
+				return
+			}
 		}
 	}
 	ex.step(st, fr, b, 0, prev, k)
@@ -506,6 +529,10 @@ func (ex *Exec) step(st *State, fr *Frame, b *ssa.BasicBlock, idx int, prev *ssa
 			if ex.nsteps == maxStepsPerFunc+1 {
 				ex.errors = append(ex.errors, fmt.Sprintf("%s: step budget exceeded (a loop needs an invariant?)", funcKey(ex.top)))
 			}
+			ex.aborted = true
+			return
+		}
+		if ex.aborted {
 			return
 		}
 		ins := b.Instrs[idx]
@@ -879,7 +906,22 @@ func (ex *Exec) loadGlobal(st *State, g *ssa.Global) Val {
 	et := g.Type().Underlying().(*types.Pointer).Elem()
 	name := g.Pkg.Pkg.Path() + "." + g.Name()
 	if ex.isImmutableGlobal(g) {
-		return TV(st.sentinel(name, sortOf(et)), et)
+		first := !st.decl["G_"+mangle(name)]
+		v := TV(st.sentinel(name, sortOf(et)), et)
+		if first {
+			ex.assumeTypeInv(st, v.T, et)
+			ex.knownVal(st, v.T, et)
+			for _, f := range ex.db.GlobalFacts[name] {
+				env := &Env{ex: ex, st: st, vars: map[string]Val{"it": v}}
+				t, err := ex.evalSpecBool(f, env)
+				if err != nil {
+					ex.errors = append(ex.errors, fmt.Sprintf("global fact for %s: %v", name, err))
+					continue
+				}
+				st.assume(t)
+			}
+		}
+		return v
 	}
 	hn := "V|" + name
 	t := st.heap(hn, sortOf(et))
